@@ -1,4 +1,4 @@
-/* program t0042 mode HIP : for (long i = a; N > i; i++; @tile(3, @outer)) [form o]; |N,a,b|<=2^12, 1<=s<=4, 1<=t<=4, sequential trip count <= 5 */
+/* program t0050 mode CUDA : for (long i = a + b; N > i; i++; @tile(t + 1, @outer)) [form o]; |N,a,b|<=2^12, 1<=s<=4, 1<=t<=4, sequential trip count <= 5 */
 
 #include "vharness.h"
 /* ---- launch-model builtins (harness globals) ---- */
@@ -47,21 +47,22 @@ static void rec(void *out, long a, long b) { rec3(out, a, b, 0); }
 
 
 /* ---- reference: the OKL source read sequentially ---- */
- void ref_t0042(const int N, const int a, const int b, const int s, const int t, int *out) {
-  for (long i = a; N > i; i++) {
+ void ref_t0050(const int N, const int a, const int b, const int s, const int t, int *out) {
+  for (long i = a + b; N > i; i++) {
     for (int j = 0; j < 1; ++j) {
       rec(out, i, j);
     }
   }
 }
 
-/* ---- translation emitted by occa for mode HIP (normalised lexically) ---- */
+/* ---- translation emitted by occa for mode CUDA (normalised lexically) ---- */
 
 
-   void _occa_t0042_0(const int N, const int a, const int b, const int s, const int t, int * out) {
+
+   void _occa_t0050_0(const int N, const int a, const int b, const int s, const int t, int * out) {
   {
-    long int _occa_tiled_i = a + (3 * blockIdx.x);
-    for (long int i = _occa_tiled_i; (_occa_tiled_i + 3) > i; i++) {
+    long int _occa_tiled_i = (a + b) + ((t + 1) * blockIdx.x);
+    for (long int i = _occa_tiled_i; (_occa_tiled_i + (t + 1)) > i; i++) {
       if (N > i) {
         {
           int j = 0 + threadIdx.x;
@@ -74,7 +75,7 @@ static void rec(void *out, long a, long b) { rec3(out, a, b, 0); }
 
 
 
-static void LAUNCH__occa_t0042_0(unsigned long *outer, unsigned long *inner, int od, int id, const int N, const int a, const int b, const int s, const int t, int * out) {
+static void LAUNCH__occa_t0050_0(unsigned long *outer, unsigned long *inner, int od, int id, const int N, const int a, const int b, const int s, const int t, int * out) {
   if (outer[0] == 0 || outer[1] == 0 || outer[2] == 0 || inner[0] == 0 || inner[1] == 0 || inner[2] == 0) return;       /* empty grid: nothing runs */
   if ((long) outer[0] < 0 || (long) outer[1] < 0 || (long) outer[2] < 0 || (long) inner[0] < 0 || (long) inner[1] < 0 || (long) inner[2] < 0) launch_negative = 1;   /* a negative count stored into the unsigned occa::dim */
   if (outer[0] > 6 || outer[1] > 6 || outer[2] > 6 || inner[0] > 6 || inner[1] > 6 || inner[2] > 6) { launch_overflow = 1; return; }
@@ -82,22 +83,22 @@ static void LAUNCH__occa_t0042_0(unsigned long *outer, unsigned long *inner, int
   for (unsigned bz = 0; bz < outer[2]; bz++) for (unsigned by = 0; by < outer[1]; by++) for (unsigned bx = 0; bx < outer[0]; bx++)
     for (unsigned tz = 0; tz < inner[2]; tz++) for (unsigned ty = 0; ty < inner[1]; ty++) for (unsigned tx = 0; tx < inner[0]; tx++) {
       blockIdx.x = bx; blockIdx.y = by; blockIdx.z = bz; threadIdx.x = tx; threadIdx.y = ty; threadIdx.z = tz;
-      _occa_t0042_0(N, a, b, s, t, out);
+      _occa_t0050_0(N, a, b, s, t, out);
     }
 }
 
 
 
- void tr_t0042(const int N, const int a, const int b, const int s, const int t, void * out) {
+ void tr_t0050(const int N, const int a, const int b, const int s, const int t, void * out) {
   {
     unsigned long outer[3] = {1, 1, 1}, inner[3] = {1, 1, 1}; int outer_dims, inner_dims;
     outer_dims = 1;
     inner_dims = 1;
-    long int _occa_tiled_i = a;
-    outer[0] = (N - a + 3 - 1) / 3;
+    long int _occa_tiled_i = a + b;
+    outer[0] = (N - (a + b) + (t + 1) - 1) / (t + 1);
     int j = 0;
     inner[0] = 1 - 0;
-    LAUNCH__occa_t0042_0(outer, inner, outer_dims, inner_dims, N, a, b, s, t, out);
+    LAUNCH__occa_t0050_0(outer, inner, outer_dims, inner_dims, N, a, b, s, t, out);
   }
 }
 
@@ -114,8 +115,8 @@ int main(void) {
   IN(int, t);
   VASSUME(t >= 1 && t <= 4);
   IN(long, watch_a); IN(long, watch_b); IN(long, watch_c); wa = watch_a; wb = watch_b; wc = watch_c;
-  which = 0; ref_t0042(N, a, b, s, t, 0);
-  which = 1; tr_t0042(N, a, b, s, t, 0);
+  which = 0; ref_t0050(N, a, b, s, t, 0);
+  which = 1; tr_t0050(N, a, b, s, t, 0);
   VASSUME(!(launch_negative && nvis[0] == 0));   /* known finding negative-trip-count excluded */
   VASSUME(!(tr_wrapped));   /* known finding wide-iterator-negative excluded */
   OUT(n_ref, nvis[0]); OUT(n_tr, nvis[1]); OUT(w_ref, nwatch[0]); OUT(w_tr, nwatch[1]);
